@@ -207,3 +207,79 @@ def mutate(rng, bs):
             j = rng.randrange(len(bs))
             bs[i], bs[j] = bs[j], bs[i]
     return bs
+
+
+# ----------------------------------------------------------------------------------------------
+# patterns with notation (NPat)
+# ----------------------------------------------------------------------------------------------
+
+_NOTATIONS = None
+
+
+def shipped_notations():
+    global _NOTATIONS
+    if _NOTATIONS is None:
+        import json
+        import os
+        from . import core, sx
+        p = os.path.join(core.BUILD, 'notations.json')
+        d = json.load(open(p))
+        _NOTATIONS = [(n['label'], n['arity'], sx.pat_of_s(n['definition']), n['format'], n['group'])
+                      for n in d['notations']]
+    return _NOTATIONS
+
+
+def gen_npat(rng, depth, constrained=0.15, subst=0.5):
+    """random pattern with notation nodes; substitutions are meta-headed (or notation-headed)"""
+    if depth <= 0 or rng.random() < 0.15:
+        r = rng.random()
+        if r < 0.25:
+            return ('evar', rng.choice(IDS))
+        if r < 0.4:
+            return ('svar', rng.choice(IDS))
+        if r < 0.5:
+            return ('sym', rng.choice(IDS))
+        return gen_mv(rng, constrained)
+    r = rng.random()
+    d = depth - 1
+    if r < 0.22:
+        return ('imp', gen_npat(rng, d, constrained, subst), gen_npat(rng, d, constrained, subst))
+    if r < 0.30:
+        return ('app', gen_npat(rng, d, constrained, subst), gen_npat(rng, d, constrained, subst))
+    if r < 0.40:
+        return ('ex', rng.choice(IDS), gen_npat(rng, d, constrained, subst))
+    if r < 0.46:
+        return ('mu', rng.choice(IDS), gen_npat(rng, d, constrained, subst))
+    if r < 0.46 + 0.12 * subst * 2:
+        kind = 'esub' if rng.random() < 0.5 else 'ssub'
+        head = gen_mv(rng, constrained) if rng.random() < 0.7 else gen_npat_meta_head(rng, d, constrained, subst)
+        return (kind, head, rng.choice(IDS), gen_npat(rng, d, constrained, subst))
+    # notation node
+    if rng.random() < 0.6:
+        label, arity, body, _, _ = rng.choice(shipped_notations())
+        keys = list(range(arity))
+    else:
+        body = gen_npat(rng, d, constrained, subst)
+        keys = [0, 1, 2]
+    if rng.random() < 0.25 and keys:
+        keys = rng.sample(keys, rng.randint(0, len(keys)))       # partial application
+    rng.shuffle(keys) if rng.random() < 0.2 else None
+    return ('inst', body, tuple((k, gen_npat(rng, d, constrained, subst)) for k in keys))
+
+
+def gen_npat_meta_head(rng, depth, constrained, subst):
+    if depth <= 0 or rng.random() < 0.5:
+        return gen_mv(rng, constrained)
+    kind = 'esub' if rng.random() < 0.5 else 'ssub'
+    return (kind, gen_npat_meta_head(rng, depth - 1, constrained, subst), rng.choice(IDS),
+            gen_npat(rng, depth - 1, constrained, subst))
+
+
+def gen_delta(rng, depth, constrained=0.15, subst=0.5):
+    keys = rng.sample([0, 1, 2, 3], rng.choice((0, 1, 1, 2, 2, 3)))
+    return tuple((k, gen_npat(rng, depth, constrained, subst)) for k in keys)
+
+
+def delta_to_s(d):
+    from . import sx
+    return '(' + ' '.join(f'({k} {sx.pat_to_s(v)})' for k, v in d) + ')'
